@@ -78,6 +78,64 @@ theorem shortest_suffix_wins (t : List (Text × String)) (extra : List (Text × 
       exact ih (fun s hs' => hp s (by simp [hs']))
   simp only [lookupIn, hn, hs, this pre hpre]
 
+/-- the grammar depends on the file name alone: two paths with the same last component get the same grammar, whatever their
+    directories are called (dots, registered suffixes, spaces in directory names change nothing) -/
+theorem same_name_same_grammar (extra : List (Text × Text)) (p q : Text) (h : fileName p = fileName q) :
+    lookup extra p = lookup extra q := by
+  simp only [lookup, lookupIn, h]
+
+theorem splitSlash_ne_nil (t : Text) : splitSlash t ≠ [] := by
+  induction t with
+  | nil => simp [splitSlash]
+  | cons c cs ih =>
+    simp only [splitSlash]
+    split
+    · simp
+    · split <;> simp
+
+theorem splitSlash_noslash (name : Text) (h : '/' ∉ name) : splitSlash name = [name] := by
+  induction name with
+  | nil => rfl
+  | cons c cs ih =>
+    have hc : c ≠ '/' := fun e => h (by simp [e])
+    have hcs : '/' ∉ cs := fun e => h (List.mem_cons_of_mem _ e)
+    simp only [splitSlash, hc, if_false, ih hcs]
+
+theorem splitSlash_append (dir name : Text) : splitSlash (dir ++ '/' :: name) = splitSlash dir ++ splitSlash name := by
+  induction dir with
+  | nil => simp [splitSlash]
+  | cons c cs ih =>
+    simp only [List.cons_append, splitSlash]
+    by_cases hc : c = '/'
+    · simp [hc, ih]
+    · simp only [hc, if_false, ih]
+      cases hs : splitSlash cs with
+      | nil => exact absurd hs (splitSlash_ne_nil cs)
+      | cons l ls => simp
+
+/-- a file `name` (no `/`, not empty, not `.` or `..`) in any directory has that name -/
+theorem fileName_join (dir name : Text) (h : '/' ∉ name) (h0 : name ≠ []) (h1 : name ≠ ['.']) (h2 : name ≠ "..".toList) :
+    fileName (dir ++ '/' :: name) = some name := by
+  unfold fileName
+  rw [splitSlash_append, splitSlash_noslash name h, List.filter_append]
+  have hk : ([name].filter (fun c => !c.isEmpty && c ≠ ['.'])) = [name] := by
+    have e1 : name.isEmpty = false := by cases name with | nil => exact absurd rfl h0 | cons _ _ => rfl
+    simp [List.filter, e1, h1]
+  rw [hk, List.reverse_append]
+  have h2' : ¬ name = ['.', '.'] := h2
+  simp [h2']
+
+/-- **directories do not matter**: `dir/name` gets the grammar of `name` -/
+theorem grammar_of_name_in_any_directory (extra : List (Text × Text)) (dir name : Text) (h : '/' ∉ name) (h0 : name ≠ [])
+    (h1 : name ≠ ['.']) (h2 : name ≠ "..".toList) : lookup extra (dir ++ '/' :: name) = lookup extra name := by
+  apply same_name_same_grammar
+  rw [fileName_join dir name h h0 h1 h2]
+  unfold fileName
+  rw [splitSlash_noslash name h]
+  have e1 : name.isEmpty = false := by cases name with | nil => exact absurd rfl h0 | cons _ _ => rfl
+  have h2' : ¬ name = ['.', '.'] := h2
+  simp [List.filter, e1, h1, h2']
+
 /-! ### `-E KEY=VALUE` (`src/flags.rs`, model `Bw.Flags`) -/
 
 /-- a mapping onto something that is not a registered suffix rejects the command line before any file is read -/
